@@ -212,6 +212,22 @@ Theorem C10_round_spec : forall q, rat_wf q = true ->
 Proof. exact round_spec_lemma. Qed.
 Print Assumptions C10_round_spec.
 
+(* floor / ceil / round of a quantity with a unit keep the unit and round the
+   coefficient.  Full-strength statement for dimensionless scaled units
+   (dozen, %, m/cm), refuted:
+     u_round mode c s = Ok r -> r denotes round_spec mode (c * s)
+   e.g. floor(1.5 dozen) = 1 dozen = 12, not 18 *)
+Theorem C10_round_unit_scale_refuted : exists c s r, rat_wf c = true /\ rat_wf s = true /\
+  u_round RFloor c s = Ok r /\ rat_is_Z r (round_spec RFloor (rat_mul c s)) = false.
+Proof. exact round_unit_scale_refuted_lemma. Qed.
+Print Assumptions C10_round_unit_scale_refuted.
+
+Theorem C10_round_unit_scale_except_known : forall mode c s, rat_wf c = true -> rat_wf s = true ->
+  known_C10_round_unit_scale s = false ->
+  exists r, u_round mode c s = Ok r /\ rat_is_Z r (round_spec mode (rat_mul c s)) = true.
+Proof. exact round_unit_scale_except_known_lemma. Qed.
+Print Assumptions C10_round_unit_scale_except_known.
+
 (* ---------------- documentation of the repaired defects ---------------- *)
 
 (* before 7d3085c (q_round_old = from_f64 . floor . into_f64) the statement
